@@ -887,7 +887,19 @@ fn exec_line(ctx: &mut Ctx, line: &str, out: &mut Out) {
                 return;
             };
             let before = ctx.main.state();
-            let prediction = predict_with_eth_call(ctx, &op, &f, &before);
+            let mut sim_events = Vec::new();
+            let prediction = predict_with_eth_call(ctx, &op, &f, &before, &mut sim_events);
+            if !sim_events.is_empty() {
+                // C17: the simulation's environment goes to the model (a read line: it must leave the node alone and
+                // run at the height / nonce the model derives for the next transaction)
+                let evs: Vec<String> = sim_events
+                    .iter()
+                    .filter(|e| e.starts_with("S ") || e.starts_with("W ") || e.starts_with("X "))
+                    .map(|e| e.split(' ').filter(|w| !w.starts_with("data=") && !w.starts_with("out=")).collect::<Vec<_>>().join(" "))
+                    .collect();
+                out.count("prediction-env-to-model");
+                out.line(&format!("read kind=predict ncalls=0 ## {}", evs.join(" ## ")), &format!("ok | {}", digest(&ctx.main.state())));
+            }
             let (resp, events) = run_on(&ctx.main, &method, &params);
             let class = err_class(&resp);
             let after = ctx.main.state();
@@ -1104,7 +1116,7 @@ fn on_accepted(ctx: &mut Ctx, op: &str, f: &BTreeMap<String, String>, resp: &Res
 }
 
 /// C17: what eth_call says right before the transaction is executed (only at a block boundary, where it does not wait)
-fn predict_with_eth_call(ctx: &Ctx, op: &str, f: &BTreeMap<String, String>, state: &Value) -> Option<(bool, String)> {
+fn predict_with_eth_call(ctx: &Ctx, op: &str, f: &BTreeMap<String, String>, state: &Value, events: &mut Vec<String>) -> Option<(bool, String)> {
     if state["lbi"]["waiting_tx_count"].as_u64() != Some(0) {
         return None;
     }
@@ -1127,7 +1139,8 @@ fn predict_with_eth_call(ctx: &Ctx, op: &str, f: &BTreeMap<String, String>, stat
     if f.get("len").map(|s| s != "auto").unwrap_or(false) {
         return None; // a tiny gas allowance is not what eth_call simulates
     }
-    let r = ctx.main.call("eth_call", json!([call]));
+    let (r, e) = run_on(&ctx.main, "eth_call", &json!([call]));
+    events.extend(e);
     match (&r.ok, &r.err) {
         (Some(Value::String(s)), _) => Some((true, s.clone())),
         (_, Some((_, _, data))) => Some((false, data.as_ref().and_then(|d| d.as_str()).unwrap_or("0x").to_string())),
@@ -1681,6 +1694,7 @@ fn exec_read(ctx: &mut Ctx, f: &BTreeMap<String, String>, out: &mut Out) {
     let mut events_all = Vec::new();
     let mut answer = String::new();
     let mut logsq: Option<(String, String)> = None;
+    let mut ncalls = 0usize; // eth_callMany / eth_estimateGasMany: calls per round (groups of the recorded runs)
     let addr_of = |ctx: &Ctx, id: &str| ctx.labels.get(id).cloned();
     match kind.as_str() {
         "height" => {
@@ -1865,6 +1879,7 @@ fn exec_read(ctx: &mut Ctx, f: &BTreeMap<String, String>, out: &mut Out) {
                 calls.push(Value::Object(call));
             }
             let m = if kind == "callmany" { "eth_callMany" } else { "eth_estimateGasMany" };
+            ncalls = calls.len();
             let (r, e) = run_on(&ctx.main, m, &json!([calls]));
             events_all.extend(e);
             if r.panicked {
@@ -1902,9 +1917,19 @@ fn exec_read(ctx: &mut Ctx, f: &BTreeMap<String, String>, out: &mut Out) {
     if let Some(bad) = events_all.iter().find(|e| e.starts_with("S ") || e.starts_with("W ") || e.starts_with("X dbcommit") || e.starts_with("X tx ")) {
         out.oracle_fail(&case, "read-wrote", &format!("read {:?} produced the event `{}`", f, bad.chars().take(160).collect::<String>()));
     }
-    let evs: Vec<String> = events_all.iter().filter(|e| e.starts_with("S ") || e.starts_with("W ") || e.starts_with("X dbcommit")).cloned().collect();
+    let mut evs: Vec<String> = events_all.iter().filter(|e| e.starts_with("S ") || e.starts_with("W ") || e.starts_with("X dbcommit")).cloned().collect();
+    // C17: the environment of every simulation of an executing read goes to the model as well (call data and output
+    // dropped), which checks height, caller nonce (per round of a *Many call: account nonce + earlier calls of the
+    // same caller) and fees against its own node
+    if matches!(kind.as_str(), "ethcall" | "estimate" | "balance" | "callmany" | "estimatemany") {
+        for e in events_all.iter().filter(|e| e.starts_with("X sim ") || e.starts_with("X simmulti ")) {
+            let slim: Vec<&str> = e.split(' ').filter(|w| !w.starts_with("data=") && !w.starts_with("out=")).collect();
+            evs.push(slim.join(" "));
+            out.count(if e.starts_with("X sim ") { "sim-env-to-model" } else { "simmulti-env-to-model" });
+        }
+    }
     let _ = answer;
-    out.line(&format!("read kind={} ## {}", kind, evs.join(" ## ")), &format!("ok | {}", after));
+    out.line(&format!("read kind={} ncalls={} ## {}", kind, ncalls, evs.join(" ## ")), &format!("ok | {}", after));
     if let Some((op, ans)) = logsq {
         out.line(&op, &ans);
     }
